@@ -2,7 +2,7 @@
 from ..common import import_sismic
 from ..gen import chart_digest, gen_chart
 from ..lockstep import Runner, first_difference, freeze, gen_script
-from ..probes import Probes, make_val
+from ..probes import ticking_clock, Probes, make_val
 from .. import build
 
 import_sismic()
@@ -25,7 +25,7 @@ RULE = ('One case = a generated chart (sends with and without delay, notify) + i
         'contained all 7 documented kinds and a notify.')
 ASSUMPTIONS = ["the undocumented, deprecated 'delayed event sent' meta-event is filtered out before comparison",
                'the listener is attached before the property statechart so that it records meta-event k before the property fails']
-REQUIRED_COUNTERS = ['sent_predicate_reads', 'deprecated_bind_form', 'stream_steps_checked', 'meta_events_checked', 'failfast_runs', 'noninterference_steps',
+REQUIRED_COUNTERS = ['cases_with_ticking_clock', 'monitored_copies_checked', 'sent_predicate_reads', 'deprecated_bind_form', 'stream_steps_checked', 'meta_events_checked', 'failfast_runs', 'noninterference_steps',
                      'streams_with_all_kinds_and_notify', 'property_time_checks', 'kind_event sent', 'kind_notify',
                      'delayed_sends_seen']
 KINDS = ['step started', 'step ended', 'event consumed', 'event sent', 'state exited', 'state entered', 'transition processed']
@@ -118,9 +118,14 @@ def run_case(acc, rnd, tier, case):
     # ---- (1) stream completeness/order/attributes + property time ---------------------------------
     sc, tmap = build.build_api(ch, coder=CODER10)
     pr = Probes(val=make_val(valseed, p_true))
-    it = Interpreter(sc, initial_context=pr.context())
+    # one case in five runs on a clock whose value grows with every reading: the time of a step is then whatever
+    # Interpreter.time shows afterwards, and 'step started', MacroStep.time and the monitors' clocks must all agree with it
+    ticking = rnd.random() < 0.2
+    it = Interpreter(sc, initial_context=pr.context(), clock=ticking_clock() if ticking else None)
     it.attach(pr.listener())
     rec = []
+    if ticking:
+        acc.count('cases_with_ticking_clock')
 
     def R(event, time):
         rec.append((event.name, freeze(event.data), time))
@@ -145,8 +150,10 @@ def run_case(acc, rnd, tier, case):
             continue
         pr.stepno = k
         del rec[:]
-        t0 = it.clock.time
+        t0 = None if ticking else it.clock.time
         o = r.apply(op)
+        if ticking:
+            t0 = it.time
         base_obs.append(o + (tuple(e if e[0] == 'S' else (e[0], e[1]) for e in pr.log if e[0] in 'EXAUS'),))
         if o[0] == 'raise':
             if isinstance(r.last_error, PropertyStatechartError):
@@ -155,6 +162,14 @@ def run_case(acc, rnd, tier, case):
             meta_per_step.append(len([e for e in norm_log(pr.log) if e[0] == 'M']))
             break
         step = r.last_step
+        if step is not None and step.time != t0:
+            acc.violation('C10:step-time', 'step %d: MacroStep.time is %r, the step was executed at %r' % (k, step.time, t0), dict(wit, step=k))
+            return
+        first = next((e for e in pr.log if e[0] in ('M', 'G', 'E', 'X', 'A', 'K', 'U', 'S')), None)
+        if first is not None and not (first[0] == 'M' and first[1] == 'step started'):
+            acc.violation('C10:something-before-step-started', "step %d: %r happened before the 'step started' meta-event was delivered"
+                          % (k, first[:2]), dict(wit, step=k))
+            return
         got = norm_log(pr.log)
         exp = expected_stream(step, tmap, t0)
         if got != exp:
@@ -197,6 +212,30 @@ def run_case(acc, rnd, tier, case):
         acc.count('meta_events_checked', len(mexp))
         meta_per_step.append(len(mexp))
         k += 1
+    # a deep copy of the monitored interpreter takes its monitors along: their clocks follow the copy, not the original
+    if rnd.random() < 0.3:
+        import copy
+        try:
+            twin = copy.deepcopy(it)
+        except Exception as e:      # noqa
+            acc.violation('C10:deepcopy-with-monitor-raised', 'copy.deepcopy of a monitored interpreter raised %s: %s'
+                          % (type(e).__name__, str(e)[:200]), wit)
+            return
+        twin.clock.time += 3
+        del rec[:]
+        t0 = None if ticking else twin.clock.time
+        try:
+            twin.execute_once()
+        except Exception:       # noqa
+            pass
+        if ticking:
+            t0 = twin.time
+        acc.count('monitored_copies_checked')
+        for (n, d, tm) in rec:
+            if tm != t0:
+                acc.violation('C10:property-time', "a deep copy of the monitored interpreter stepped at %r: its property statechart saw "
+                              "time %r while consuming '%s' (the original is at %r)" % (t0, tm, n, it.time), wit)
+                return
     if len(kinds_seen) == 8:
         acc.count('streams_with_all_kinds_and_notify')
         acc.nontrivial((dg, 'all-kinds'))
@@ -205,7 +244,7 @@ def run_case(acc, rnd, tier, case):
     # ---- (3) non-interference -------------------------------------------------------------------------
     sc2, tmap2 = build.build_api(ch, coder=CODER10)
     pr2 = Probes(val=make_val(valseed, p_true))
-    it2 = Interpreter(sc2, initial_context=pr2.context())
+    it2 = Interpreter(sc2, initial_context=pr2.context(), clock=ticking_clock() if ticking else None)
     r2 = Runner(it2, tmap2, log=pr2.log)
     k2 = 0
     for op in script:
@@ -243,7 +282,7 @@ def run_case(acc, rnd, tier, case):
             cum += n
         sc3, tmap3 = build.build_api(ch, coder=CODER10)
         pr3 = Probes(val=make_val(valseed, p_true))
-        it3 = Interpreter(sc3, initial_context=pr3.context())
+        it3 = Interpreter(sc3, initial_context=pr3.context(), clock=ticking_clock() if ticking else None)
         it3.attach(pr3.listener())
         cnt = [0]
 
